@@ -13,11 +13,25 @@ def name_map(block):
     return out
 
 
+class ForeignExportDiffers(Exception):
+    pass
+
+
 def export(block, add_reset):
+    """the module text of `block`; exported once with `block` as it is (working block or not) and once while an
+    unrelated empty block is the working block - the text must not depend on which block is the working one"""
     import pyrtl
     f = io.StringIO()
     pyrtl.output_to_verilog(f, add_reset=add_reset, block=block)
-    return f.getvalue()
+    native = f.getvalue()
+    f2 = io.StringIO()
+    with pyrtl.set_working_block(pyrtl.Block(), no_sanity_check=True):
+        pyrtl.output_to_verilog(f2, add_reset=add_reset, block=block)
+    if f2.getvalue() != native:
+        import difflib
+        d = [l for l in difflib.unified_diff(native.splitlines(), f2.getvalue().splitlines(), lineterm='', n=0)][2:8]
+        raise ForeignExportDiffers('output_to_verilog(block=b) differs when b is not the working block: %s' % d)
+    return native
 
 
 @__import__('fam.designs', fromlist=['design']).design
@@ -121,7 +135,10 @@ def static_replay(design, add_reset):
     from fam import designs
     from spec import vsem
     block = designs.build(design)
-    text = export(block, add_reset)
+    try:
+        text = export(block, add_reset)
+    except ForeignExportDiffers as e:
+        return dict(failed=True, observed=str(e)[:400], expected='the same text whichever block is the working block')
     try:
         m = vsem.parse_module(text)
     except vsem.VError as e:
